@@ -357,8 +357,10 @@ def run_check(prop, tier, seed, repo, tmp, replay, scale, t0):
         print(f"VIOLATION property={prop} replay={path}")
         print(f"  key={key}\n  {desc[:600]}")
     wall = time.time() - t0
-    if evaluations == 0 and not new and not inconclusive:
-        print(f"ERROR property={prop}: the run observed nothing (0 evaluations)")
+    if evaluations == 0 and not new:
+        for m in inconclusive[:5]:
+            print(f"INCONCLUSIVE: property={prop} {m}")
+        print(f"ERROR property={prop}: the run observed nothing (0 evaluations); no verdict")
         return 2
     if not replay and repo == "/repo":
         ev = {
